@@ -57,4 +57,34 @@ theorem chan_frame_retry (cfg : Cfg) (s s' : St) (l : Label) (ho : ∀ o, l ≠ 
   all_goals
     step_elim hs
     all_goals rfl
+/-- Everything a flush registration recorded as accepted stays in the accepted history, and the history only grows by
+    the item of a send. -/
+theorem accepted_step (cfg : Cfg) (s s' : St) (l : Label) (hs : step cfg s l = some s') :
+    (∀ x ∈ s.accepted, x ∈ s'.accepted) ∧
+    (∀ x ∈ s'.accepted, x ∈ s.accepted ∨ l = .send x ∨ l = .trySend x) ∧
+    (∀ p ∈ s'.acceptedAt, p ∈ s.acceptedAt ∨ p.2 = s.accepted) := by
+  cases l
+  case send y =>
+    step_elim hs
+    unfold send
+    by_cases hc : s.pending.length ≥ cfg.cap <;> by_cases ho : s.isOpen <;> simp [hc, ho, truncate, push] <;> grind
+  case trySend y =>
+    step_elim hs
+    unfold trySend
+    by_cases ho : s.isOpen <;> by_cases hc : s.pending.length < cfg.cap <;> simp [ho, hc, push] <;> grind
+  all_goals
+    step_elim hs
+    all_goals (refine ⟨fun x hx => ?_, fun x hx => ?_, fun p hp => ?_⟩ <;> simp_all <;> grind)
+
+structure InvAcc (s : St) : Prop where
+  sub : ∀ p ∈ s.acceptedAt, ∀ x ∈ p.2, x ∈ s.accepted
+
+theorem invAcc_reachable (cfg : Cfg) (s : St) (h : Reachable cfg s) : InvAcc s := by
+  refine Sched.invariant_of_step (Inv := InvAcc) ⟨by simp [init]⟩ ?_ s h
+  intro s l s' hi hs
+  obtain ⟨h1, _, h3⟩ := accepted_step cfg s s' l hs
+  refine ⟨fun p hp x hx => ?_⟩
+  rcases h3 p hp with hp | hp
+  · exact h1 x (hi.sub p hp x hx)
+  · rw [hp] at hx; exact h1 x hx
 end EmitModel.Batcher
